@@ -284,7 +284,11 @@ func raceOne(vc *VC, r *Result, o solveOpts) {
 	defer os.Remove(fileQF)
 	ch := make(chan ans, 2*len(solvers)+2)
 	r.Status, r.Solver = "unknown", "all"
-	ms := 5 * o.timeoutMs // generous: only obligations the first pass could not decide get here
+	ms := 5 * o.timeoutMs // generous
+	if ms > 120000 {
+		ms = 120000 // thorough tier: 120 s per obligation and solver
+	}
+	_ = 0 // generous: only obligations the first pass could not decide get here
 	ctx, cancel := context.WithCancel(context.Background())
 	defer cancel()
 	for _, s := range solvers {
